@@ -175,6 +175,12 @@ static StepRes run_step(const Op &op, const bytes &input, const bytes &key, cons
   std::string in = dir + "/in" + std::to_string(idx), out = dir + "/out" + std::to_string(idx);
   write_file(in, std::string(input.begin(), input.end()));
   std::string ks = ref::b64_encode(k.data(), 16);
+  // a command line that is refused while its options are parsed (tamper 12: the input file does not exist, 13: the key
+  // text is not a key, 14: two modes): whatever the parser leaves behind must not reach the next command line
+  if (op.tamper == 12)
+    in = dir + "/no-such-input-" + std::to_string(idx);
+  else if (op.tamper == 13)
+    ks = "not-a-base64-key";
   std::vector<std::string> av = {"wencry"};
   if (op.kind == "enc")
     av.insert(av.end(), {"-e", "-i", in, "-o", out, "-k", ks, "--cmode", std::to_string(op.cmode), "--hmode", std::to_string(op.hmode), "-n"});
@@ -182,6 +188,8 @@ static StepRes run_step(const Op &op, const bytes &input, const bytes &key, cons
     av.insert(av.end(), {"-d", "-i", in, "-o", out, "-k", ks, "-n"});
   else
     av.insert(av.end(), {"-v", "-i", in, "-k", ks, "-n"});
+  if (op.tamper == 14)
+    av.insert(av.begin() + 1, "-e"); // a second mode flag in front
   r.ret = wapi::cli_run(av, pc, input.size() / 16 + 2, NULL);
   if (getenv("WV_DEBUG_FD"))
   {
@@ -518,7 +526,9 @@ static Case gen_c15()
       o.T = srcT;
       o.chunk = (int)c.geti("chunk" + std::to_string(o.src), o.chunk);
       o.tamper = g::coin(30) ? (int)g::range(1, 5) : 0;
-      if (o.level == "api" && g::coin(8))
+      if (o.level == "cli" && g::coin(14))
+        o.tamper = (int)g::range(12, 15); // refused while the options are parsed (no such input / bad key text / two modes)
+      else if (o.level == "api" && g::coin(8))
         o.tamper = 9; // NULL input stream
       else if (o.level == "api" && o.T >= 2 && wapi::has_scheduler() && g::coin(7))
         o.tamper = (o.kind == "dec" && g::coin(70)) ? 10 : 11; // a big buffer is refused (std::bad_alloc)
@@ -546,6 +556,8 @@ static void fixed_c15(Ctx &ctx)
       {"enc,api,-1,0,0,1,0,2,32,100,1,0,0,k0", "dec,api,0,0,1,1,0,2,32,0,0,0,0,k0", "dec,api,0,0,0,1,0,2,32,0,0,0,0,k0", "ver,api,0,3,0,1,0,2,32,0,0,0,0,k0", "enc,api,-1,0,0,2,2,16,16,63,2,1,1,k0", "dec,api,4,0,0,2,2,16,16,0,0,1,0,k0", NULL},
       {"enc,cli,-1,0,0,3,1,4,64,255,3,0,0,k0", "ver,cli,0,0,0,3,1,4,64,0,0,0,0,k0", "dec,cli,0,1,0,3,1,4,64,0,0,0,0,k0", "dec,cli,0,0,0,3,1,4,64,0,0,0,0,k0", "enc,api,-1,0,0,4,0,3,48,96,4,2,1,k0", "dec,api,4,0,0,4,0,3,48,0,0,2,0,k0", NULL},
       {"enc,api,-1,0,0,0,0,1,16,0,5,0,0,k0", "dec,api,0,0,0,0,0,1,16,0,0,0,0,k0", "enc,api,-1,0,0,1,1,5,16,79,6,1,2,k0", "dec,api,2,2,0,1,1,5,16,0,0,1,0,k0", "dec,api,2,0,0,1,1,5,16,0,0,1,0,k0", "enc,cli,-1,0,0,2,2,4,32,31,7,0,0,k0", "dec,cli,5,0,0,2,2,4,32,0,0,0,0,k0", NULL},
+      // command lines refused during option parsing, each followed by command lines that must not notice
+      {"enc,cli,-1,0,0,2,2,4,32,70,8,0,0,k0", "ver,cli,0,12,0,2,2,4,32,0,0,0,0,k0", "ver,cli,0,0,0,2,2,4,32,0,0,0,0,k0", "dec,cli,0,13,0,2,2,4,32,0,0,0,0,k0", "enc,cli,-1,0,0,3,1,4,32,50,9,0,0,k0", "dec,cli,0,14,0,2,2,4,32,0,0,0,0,k0", "dec,cli,0,0,0,2,2,4,32,0,0,0,0,k0", NULL},
       // a refused big buffer (std::bad_alloc) in the middle of a history: the steps behind it must not notice
       {"enc,api,-1,10,0,1,0,3,32,100,1,0,0,k0", "enc,api,-1,0,0,1,0,2,32,100,1,0,0,k0", "dec,api,1,0,0,1,0,2,32,0,0,0,0,k0", "dec,api,1,10,0,1,0,2,32,0,0,0,0,k0", "dec,api,1,11,0,1,0,2,32,0,0,0,0,k0", "dec,api,1,0,0,1,0,2,32,0,0,0,0,k0", "enc,api,-1,11,0,2,2,4,16,70,2,1,1,k0", NULL},
   };
